@@ -126,14 +126,15 @@ static bool DyndepOnRule(const Stmt& s) { return !s.phony && !s.dyndep.empty() &
 
 // A third of the statements with deps / depfile bind them on the build statement instead of the rule.
 // a third of the statements bind restat / generator on the build statement, not on the rule
-static bool FlagsOnBuild(const Stmt& s) { return !s.regen && !s.outs.empty() && Hash64(s.outs[0], (uint64_t)s.id * 29 + 13) % 3 == 0; }
+static bool FlagsOnBuild(const Stmt& s) { return !s.regen && !s.outs.empty() && Hash64(s.outs[0], (uint64_t)s.id * 29 + (uint64_t)s.key * 101 + 13) % 3 == 0; }
 // An alias of the plain form (one output, nothing implicit) may name itself among its inputs, as old CMake
 // versions wrote it: ninja drops the self-reference with a warning (-w phonycycle=warn, the default) and
 // the statement means what it means without it. One such alias in four does: half among the explicit
 // inputs, half among the order-only ones. The scenario's own structure never holds the self-reference.
 static int SelfRef(const Stmt& s) {
   if (!s.phony || s.outs.size() != 1 || !s.imp_outs.empty() || !s.imp_ins.empty() || !s.extra_imp.empty() || !s.validations.empty()) return 0;
-  uint64_t h = Hash64(s.outs[0], (uint64_t)s.id * 37 + 21) % 8;
+  // (alias names repeat from scenario to scenario: the statement's key and first input vary the choice)
+  uint64_t h = Hash64(s.outs[0] + "|" + (s.ins.empty() ? std::string() : s.ins[0]), (uint64_t)s.id * 37 + (uint64_t)s.key * 101 + 21) % 8;
   return h == 0 ? 1 : h == 1 ? 2 : 0;
 }
 std::string MsvcPrefix(const Stmt& s) {
@@ -429,7 +430,7 @@ struct Gen {
       s.outs.push_back(Deco(b, 2));
       // one alias in four sits in a pool (a `pool =` binding is legal on any build statement): it
       // runs no command but passes through the pool's accounting like one
-      if (!sc.pools.empty() && Hash64(s.outs[0], (uint64_t)i * 5 + 2) % 4 == 0) {
+      if (!sc.pools.empty() && Hash64(s.outs[0], (uint64_t)i * 5 + (uint64_t)s.key * 101 + 2) % 4 == 0) {
         auto it = sc.pools.begin(); std::advance(it, (long)(Hash64(s.outs[0], 77) % sc.pools.size())); s.pool = it->first;
       }
       // a quarter of the aliases name two things at once
@@ -462,7 +463,7 @@ struct Gen {
     // one statement in fifteen names its first input a second time - again as an explicit input, or as
     // an implicit or order-only one (legal; the node then lists the statement twice among its users)
     if (!s.ins.empty()) {
-      uint64_t hd = Hash64(s.outs[0], (uint64_t)i * 19 + 8);
+      uint64_t hd = Hash64(s.outs[0], (uint64_t)i * 19 + (uint64_t)s.key * 101 + 8);
       if (hd % 15 == 0) {
         std::vector<std::string>& v = (hd >> 8) % 3 == 0 ? s.ins : (hd >> 8) % 3 == 1 ? s.imp_ins : s.oo_ins;
         if (&v != &s.imp_ins || Has(F_IMPLICIT)) if (&v != &s.oo_ins || Has(F_ORDERONLY)) v.push_back(s.ins[0]);
